@@ -297,6 +297,20 @@ func runCase(app *fx.App, tr *fx.Trace, r *fx.Rng, caseNo int) {
 			w.prices[s] = &bothan.Price{SignalId: s, Price: pr, Status: st}
 			priceOut = append(priceOut, []any{s, int(st), fx.U(pr)})
 		}
+		// the chain's current-feed list changes (feeds.EndBlocker recomputes it periodically): a signal may drop out of it
+		// and come back later
+		var feedsNow []any
+		if nf > 1 && r.Chance(1, 10) {
+			k := r.Range(1, nf)
+			app.FeedsKeeper.SetCurrentFeeds(ctx.WithBlockTime(time.Unix(w.now-10_000, 0)).WithBlockHeight(1), feeds[:k])
+			if cf2, err := w.qs.CurrentFeeds(w.blockCtx(), &feedstypes.QueryCurrentFeedsRequest{}); err == nil {
+				feedsNow = []any{}
+				for _, f := range cf2.CurrentFeeds.Feeds {
+					feedsNow = append(feedsNow, []any{f.SignalID, f.Interval, f.DeviationBasisPoint})
+				}
+			}
+			tr.Tag("current-feeds-changed")
+		}
 		fault := ""
 		switch r.Intn(12) {
 		case 0:
@@ -354,8 +368,12 @@ func runCase(app *fx.App, tr *fx.Trace, r *fx.Rng, caseNo int) {
 		if deliv == nil {
 			deliv = []fx.M{}
 		}
-		tr.Op(fx.M{"op": "tick", "now": now, "lag": lag, "prices": priceOut, "old": oldOut, "pendingBefore": pendBefore, "nonPending": nonPending, "fault": fault,
-			"out": fx.M{"ran": ran, "decided": decOut, "deliveries": deliv, "released": released, "waited": waited, "pendingAfter": pendingList(pending)}})
+		line := fx.M{"op": "tick", "now": now, "lag": lag, "prices": priceOut, "old": oldOut, "pendingBefore": pendBefore, "nonPending": nonPending, "fault": fault,
+			"out": fx.M{"ran": ran, "decided": decOut, "deliveries": deliv, "released": released, "waited": waited, "pendingAfter": pendingList(pending)}}
+		if feedsNow != nil {
+			line["feeds"] = feedsNow
+		}
+		tr.Op(line)
 		if !released {
 			break
 		}
